@@ -208,4 +208,165 @@ theorem apply_sim_ok (na : Bool) (gs : List Chg) (q : List Behav) (st0 : St SimS
   · show (changeLoop D true (gs.map Chg.cmd) s3).2.warns = _
     rw [hl2]
 
+/-! ### the aftermath of an aborted change loop: deferred `end` and `reload cancel` with ANY left-over bytes -/
+
+theorem promptFind_exists (X : Str) : ∃ r, promptFind (X ++ promptHead ++ ['#']) = some r := by
+  induction X with
+  | nil => exact ⟨_, promptFind_at [] [] rfl rfl⟩
+  | cons c X ih =>
+    obtain ⟨r, hr⟩ := ih
+    show ∃ r, promptFind (c :: (X ++ promptHead ++ ['#'])) = some r
+    unfold promptFind
+    simp only
+    split
+    · exact ⟨_, rfl⟩
+    · rw [hr]; exact ⟨_, rfl⟩
+
+/-- deferred `SendCmd("end")` succeeds whatever is left in the buffer -/
+theorem end_sim_leftover (na : Bool) (st : St SimSt) (hparts : st.dev.parts = []) :
+    ∃ L', sendCmd (simDevice [] na) endCmd st =
+      (.ok (), { st with pend := L', trace := st.trace ++ [endCmd] }) := by
+  have hstep := simStep_plain na st.dev endCmd hparts (by cases na <;> decide) (by decide) (by decide)
+  have e : st.pend ++ (endCmd ++ ['\n'] ++ prompt) = (st.pend ++ endCmd) ++ promptHead ++ ['#'] := by
+    rw [prompt_eq, promptHead_eq]; simp
+  obtain ⟨r, hr⟩ := promptFind_exists (st.pend ++ endCmd)
+  refine ⟨(st.pend ++ (endCmd ++ ['\n'] ++ prompt)).drop r.2, ?_⟩
+  unfold sendCmd bindM send waitPrompt expectEnd pureM
+  simp only [hstep, e, hr, Option.map_some]
+
+theorem altAt_single_le (p s : Str) (e : Nat) (h : altAt [(p, false)] s = some e) : e = p.length := by
+  unfold altAt at h
+  split at h
+  · simp at h; exact h.symm
+  · simp [altAt] at h
+
+theorem altFind_ge (p : Str) (R : Str) (k : Nat) (h : altFind [(p, false)] R = some k) : p.length ≤ k := by
+  induction R generalizing k with
+  | nil => simp [altFind] at h
+  | cons c R ih =>
+    unfold altFind at h
+    cases ha : altAt [(p, false)] (c :: R) with
+    | some e => rw [ha] at h; simp at h; rw [← h, altAt_single_le p _ e ha]; exact Nat.le_refl _
+    | none =>
+      rw [ha] at h
+      cases hf : altFind [(p, false)] R with
+      | none => rw [hf] at h; simp at h
+      | some k' => rw [hf] at h; simp at h; have := ih k' hf; omega
+
+theorem altFind_append_exists (p L R : Str) (k : Nat) (h : altFind [(p, false)] R = some k) :
+    ∃ e, altFind [(p, false)] (L ++ R) = some e ∧ e ≤ L.length + k := by
+  induction L with
+  | nil => exact ⟨k, h, by simp⟩
+  | cons c L ih =>
+    obtain ⟨e, he, hle⟩ := ih
+    show ∃ e, altFind [(p, false)] (c :: (L ++ R)) = some e ∧ e ≤ (c :: L).length + k
+    unfold altFind
+    cases ha : altAt [(p, false)] (c :: (L ++ R)) with
+    | some e' =>
+      refine ⟨e', rfl, ?_⟩
+      rw [altAt_single_le p _ e' ha]
+      have := altFind_ge p R k h
+      simp; omega
+    | none => exact ⟨e + 1, by simp [he], by simp; omega⟩
+
+theorem endsWithHash_drop (s' : Str) (e : Nat) (h : e ≤ s'.length) : endsWithHash ((s' ++ ['#']).drop e) = true := by
+  rw [List.drop_append_of_le_length h]; exact endsWithHash_append _
+
+theorem cancelReload_eval_any (D : Device σ) (st : St σ) (r0 r2 : Str) (d1 d2 : σ) (e k : Nat)
+    (h1 : D.step st.dev cancelCmd = (d1, r0))
+    (a1 : altFind [(lit "--- SHUTDOWN ABORTED ---", false)] (st.pend ++ r0) = some e)
+    (he : e ≤ (st.pend ++ r0).length)
+    (a2 : endsWithHash ((st.pend ++ r0).drop e) = true)
+    (h3 : D.step d1 [] = (d2, r2))
+    (a3 : promptFind r2 = some (k, r2.length)) :
+    cancelReload D st =
+      (.ok (), { st with dev := d2, pend := [], reloadActive := false,
+                         trace := st.trace ++ [cancelCmd, []] }) := by
+  have hlen : e + ((st.pend ++ r0).length - e) = (st.pend ++ r0).length := by omega
+  unfold cancelReload issueCmd sendCmd bindM send waitHashEnd waitPrompt setActive pureM
+  simp only [expectEnd, h1, a1, a2, h3, a3, if_true, List.take_length, List.drop_length,
+    List.nil_append, Option.map_some, List.append_assoc]
+  simp [hlen]
+
+/-- deferred `reload cancel` completes whatever is left in the buffer: `IssueCmd` finds the
+`SHUTDOWN ABORTED` banner at the latest in the device's answer, `WaitShort("[#] ?$")` swallows
+everything up to the final prompt, the empty command re-synchronises -/
+theorem cancel_sim_leftover (na : Bool) (st : St SimSt) (hparts : st.dev.parts = []) :
+    cancelReload (simDevice [] na) st =
+      (.ok (), { st with pend := [], reloadActive := false, trace := st.trace ++ [cancelCmd, []] }) := by
+  have hse : splitOnNL ([] : Str) = [[]] := by decide
+  have h1 := simStep_std na st.dev cancelCmd cancelReply [] hparts (std_cancel na) (by decide)
+  rw [simDev_parts_nil st.dev hparts] at h1
+  obtain ⟨e, hfind, hle⟩ := altFind_append_exists (lit "--- SHUTDOWN ABORTED ---") st.pend cancelReply 48
+    (by decide +kernel)
+  have hcr : cancelReply = cancelReply.dropLast ++ ['#'] := by decide +kernel
+  have hlen : cancelReply.dropLast.length = 59 := by decide +kernel
+  have he' : e ≤ (st.pend ++ cancelReply.dropLast).length := by simp [hlen]; omega
+  have ha2 : endsWithHash ((st.pend ++ cancelReply).drop e) = true := by
+    have : st.pend ++ cancelReply = (st.pend ++ cancelReply.dropLast) ++ ['#'] := by
+      rw [List.append_assoc, ← hcr]
+    rw [this]; exact endsWithHash_drop _ e he'
+  have hle2 : e ≤ (st.pend ++ cancelReply).length := by
+    have : cancelReply.length = 60 := by decide +kernel
+    simp [this]; omega
+  have := cancelReload_eval_any (simDevice [] na) st cancelReply ([] ++ ['\n'] ++ prompt) _ _ e 0 h1
+    hfind hle2 ha2 (simStep_plain na st.dev [] hparts (by cases na <;> decide) (by decide) hse) (by decide +kernel)
+  rw [this]
+
+/-- the transcript of a run in which a command is rejected -/
+def failTrace (na : Bool) (gs : List Chg) : List Str :=
+  prepCmds ++ schedLines na ++ [confCmd] ++ specTrace na gs ++ [endCmd] ++ [cancelCmd, []]
+
+/-- **the whole of `ApplyCommands` when a command is rejected** — at any position of the script, with
+any banner placements (except F-C15b): the deferred `end` and `reload cancel` complete although
+bytes may be left in the buffer, the result is the abort raised by the rejected command. -/
+theorem apply_sim_rejected (na : Bool) (gs : List Chg) (q : List Behav) (st0 : St SimSt)
+    (hp : st0.pend = []) (ht : st0.trace = []) (hparts : st0.dev.parts = [])
+    (hq : st0.dev.queue = gs.flatMap Chg.behavs ++ q) (hc : ∀ g ∈ gs, g.Clean ∧ g.NoProbeFirst)
+    (hbad : specOk gs = false) :
+    let o := applyCommands (simDevice [] na) true (gs.map Chg.cmd) st0
+    (∃ ci R out, o.1 = .abort (.unexpectedOutput ci R) ∧ firstBad gs = some (ci, out) ∧
+        neLines R = neLines out) ∧
+    o.2.trace = failTrace na gs ∧ o.2.warns = st0.warns ++ specWarns gs ∧
+    o.2.reloadActive = false ∧ o.2.pend = [] := by
+  intro o
+  let D := simDevice [] na
+  let s1 : St SimSt := { st0 with pend := [], trace := st0.trace ++ prepCmds }
+  have e1 : prepareDevice D st0 = (.ok (), s1) := prepare_sim na st0 hp hparts
+  let s2 : St SimSt := { s1 with pend := [], reloadActive := true, trace := s1.trace ++ schedLines na }
+  have e2 : scheduleReload D s1 = (.ok (), s2) := schedule_sim na s1 rfl hparts
+  let s3 : St SimSt := { s2 with pend := [], trace := s2.trace ++ [confCmd] }
+  have e3 : sendCmd D confCmd s2 = (.ok (), s3) := conf_sim na s2 rfl hparts
+  have hr3 : Ready s3 := ⟨rfl, rfl, hparts⟩
+  obtain ⟨hl1, hl2, _, hl4, hl5⟩ := loop_spec na gs s3 q hr3 hq hc
+  obtain ⟨ci, R, out, hab, hfb, hne⟩ := hl4 hbad
+  let s4 := (changeLoop D true (gs.map Chg.cmd) s3).2
+  obtain ⟨L', e4⟩ := end_sim_leftover na s4 hl5.1
+  let s5 : St SimSt := { s4 with pend := L', trace := s4.trace ++ [endCmd] }
+  have e5 : cancelReload D s5 =
+      (.ok (), { s5 with pend := [], reloadActive := false, trace := s5.trace ++ [cancelCmd, []] }) :=
+    cancel_sim_leftover na s5 hl5.1
+  let s6 : St SimSt := { s5 with pend := [], reloadActive := false, trace := s5.trace ++ [cancelCmd, []] }
+  have hbody : guardedBody D true (gs.map Chg.cmd) s2 = (.abort (.unexpectedOutput ci R), s5) := by
+    unfold guardedBody
+    rw [bindM_snd_of_ok _ _ _ () (by rw [e3]), e3, finally_eq, e4]
+    simp only [finRes]
+    show ((changeLoop D true (gs.map Chg.cmd) s3).1, s5) = _
+    rw [hab]
+  have hguard : guarded D true (gs.map Chg.cmd) s1 = (.abort (.unexpectedOutput ci R), s6) := by
+    unfold guarded
+    rw [bindM_snd_of_ok _ _ _ () (by rw [e2]), e2, finally_eq, hbody, e5]
+    rfl
+  have ho : o = (.abort (.unexpectedOutput ci R), s6) := by
+    show applyCommands D true (gs.map Chg.cmd) st0 = _
+    unfold applyCommands
+    rw [bindM_snd_of_ok _ _ _ () (by rw [e1]), e1, bindM_of_abort _ _ _ _ (by rw [hguard]), hguard]
+  rw [ho]
+  refine ⟨⟨ci, R, out, rfl, hfb, hne⟩, ?_, ?_, rfl, rfl⟩
+  · show (changeLoop D true (gs.map Chg.cmd) s3).2.trace ++ [endCmd] ++ [cancelCmd, []] = _
+    rw [hl1]
+    simp [s3, s2, s1, ht, failTrace]
+  · show (changeLoop D true (gs.map Chg.cmd) s3).2.warns = _
+    rw [hl2]
+
 end NA.Ios
